@@ -1,6 +1,9 @@
 """C14 -- label names convert totally, case-insensitively and consistently with merging."""
+import json
+import os
 import string
 
+from harness.lib import core
 from harness.lib.core import Corr, Prop, slit
 
 TASKS = ["detection", "tracking", "prediction", "sensing", "detection2d", "tracking2d", "classification2d",
@@ -8,10 +11,42 @@ TASKS = ["detection", "tracking", "prediction", "sensing", "detection2d", "track
 MERGE_DOC = {"TRUCK": "CAR", "BUS": "CAR", "MOTORBIKE": "BICYCLE"}
 
 
+_GOLDEN = {}
+
+
+def golden():
+    """the pinned copy of the documented tables (corpus/C14/golden/label_tables.json: derived from the unchanged label.py and from
+    docs/en/perception/label.md at the commit recorded in the file) -- the oracle's notion of 'its documented label', independent of the
+    converter under test and of the regenerated Coq tables"""
+    if not _GOLDEN:
+        _GOLDEN.update(json.load(open(os.path.join(core.ROOT, "corpus", "C14", "golden", "label_tables.json"))))
+    return _GOLDEN
+
+
+def golden_key(family, merge, task):
+    if family == "autoware":
+        return "autoware/merge=" + ("true" if merge else "false")
+    return "traffic_light/" + ("classification2d" if task == "classification2d" else "other")
+
+
 def _conv(family, merge, task):
     from perception_eval.common.label import LabelConverter
 
     return LabelConverter(task, merge, family)
+
+
+_COUNTING = {}
+
+
+def _counting_conv(family, merge, task):
+    """ONE converter per (family, merge, task) with count_label_number=True -- the setting both configuration classes default to -- kept
+    for the whole run, so that every conversion goes through a converter that has already served many others"""
+    from perception_eval.common.label import LabelConverter
+
+    k = (family, merge, task)
+    if k not in _COUNTING:
+        _COUNTING[k] = LabelConverter(task, merge, family, True)
+    return _COUNTING[k]
 
 
 def variants(v, rng):
@@ -49,6 +84,16 @@ class LabelCorr(Corr):
                     for m in enum:
                         names |= variants(m.value, rng)
                         names |= variants(m.name, rng)
+                    # every name the documentation registers for the family in ANY (merge, task) table, whether or not the converter
+                    # under test still holds it
+                    for k, tbl in golden()["tables"].items():
+                        if k.startswith(family):
+                            names |= set(tbl)
+                            for nm in rng.sample(sorted(tbl), 6):
+                                names |= variants(nm, rng)
+                    for k, tbl in golden()["docs"].items():
+                        if k.startswith(family):
+                            names |= set(tbl)
                     names |= {"", "zzz", "trailer", "Trailer", "cyclist", "vehicle", "pedestrian.", "none"}
                     for _ in range(n_rand):
                         names.add("".join(rng.choice(alphabet) for _ in range(rng.randint(1, 14))))
@@ -80,6 +125,29 @@ class LabelCorr(Corr):
             r["registered"] = [li.label.name for li in conv.label_infos if li.name == s.lower()]
             r["canonical_value"] = lab.label.value
             r["canonical_roundtrip"] = conv.convert_label(lab.label.value).label.name
+            # the all-labels branch of the target list (None / empty list = every member of the family's enum)
+            r["all_labels"] = [[l.name for l in set_target_lists(None, conv)], [l.name for l in set_target_lists([], conv)]]
+            r["all_labels_family_ok"] = bool(all(isinstance(l, fam) for l in set_target_lists(None, conv) + set_target_lists([], conv)))
+            # the task given as the enum member (what the configuration classes pass) instead of its string
+            from perception_eval.common.evaluation_task import EvaluationTask
+            from perception_eval.common.label import LabelConverter
+            ce = LabelConverter(EvaluationTask.from_value(case["task"]), case["merge"], case["family"])
+            r["enum_task"] = [ce.convert_label(s).label.name, ce.convert_name(s).name, [[li.name, li.label.name] for li in ce.label_infos]
+                              == [[li.name, li.label.name] for li in conv.label_infos]]
+            # the production setting count_label_number=True on a long-lived converter: same answers, table untouched, one count per hit
+            cc = _counting_conv(case["family"], case["merge"], case["task"])
+            tbl0 = [[li.name, li.label.name] for li in conv.label_infos]
+            n0 = [li.num for li in cc.label_infos]
+            l1 = cc.convert_label(s)
+            n1 = [li.num for li in cc.label_infos]
+            l2 = cc.convert_name(s)
+            n2 = [li.num for li in cc.label_infos]
+            l3 = set_target_lists([s.upper()], cc)
+            r["counting"] = {"labels": [l1.label.name, l2.name, l3[0].name], "kept_name": l1.name == s,
+                             "family_ok": bool(isinstance(l1.label, fam) and isinstance(l2, fam) and isinstance(l3[0], fam)),
+                             "table_ok": [[li.name, li.label.name] for li in cc.label_infos] == tbl0,
+                             "hits": [[[cc.label_infos[i].name, b - a] for i, (a, b) in enumerate(zip(x, y)) if a != b] for x, y in ((n0, n1), (n1, n2))],
+                             "no_count_nums": [li.num for li in conv.label_infos if li.num != 0]}
         except Exception as e:
             return {"error": f"{type(e).__name__}: {e}"}
         return r
@@ -118,6 +186,37 @@ class LabelCorr(Corr):
             return f"letter case matters: {s!r} -> {obs['label']} but {s.lower()!r} -> {obs['lower_label']}"
         if obs["name_label"] != obs["label"] or obs["target_list"][0] != obs["label"]:
             return f"target-list resolution of {s!r} gives {obs['name_label']}/{obs['target_list']} but objects get {obs['label']}"
+        G = golden()
+        gk = golden_key(case["family"], case["merge"], case["task"])
+        for src in ("tables", "docs"):
+            want = G[src].get(gk, {}).get(s.lower())
+            if want is not None and obs["label"] != want:
+                where = "common/label.py" if src == "tables" else "docs/en/perception/label.md"
+                return (f"{s!r} converts to {obs['label']} but its documented label is {want} (pinned table {gk} of {where}, "
+                        f"corpus/C14/golden/label_tables.json)")
+        enum_keys = [k for k, _ in G["enums"][case["family"]]]
+        if obs["label"] not in enum_keys:
+            return f"{s!r} converts to {obs['label']}, which is not a member of the documented {case['family']} label enum"
+        if "all_labels" in obs:
+            for arg, got in zip(("None", "[]"), obs["all_labels"]):
+                if got != enum_keys or not obs["all_labels_family_ok"]:
+                    return f"set_target_lists({arg}, converter) gives {got} instead of every member of the {case['family']} label enum {enum_keys}"
+        if "enum_task" in obs and (obs["enum_task"][0] != obs["label"] or obs["enum_task"][1] != obs["label"] or not obs["enum_task"][2]):
+            return (f"LabelConverter given the task as an EvaluationTask member converts {s!r} to {obs['enum_task'][:2]}, given the string "
+                    f"{case['task']!r} to {obs['label']}" + ("" if obs["enum_task"][2] else "; the two converters hold different (name, label) tables"))
+        if "counting" in obs:
+            c = obs["counting"]
+            if c["labels"] != [obs["label"]] * 3 or not c["family_ok"] or not c["kept_name"]:
+                return (f"a long-lived converter with count_label_number=True converts {s!r} to {c['labels']} (convert_label, convert_name, "
+                        f"target list) but a fresh converter without counting to {obs['label']}")
+            if not c["table_ok"]:
+                return "converting with count_label_number=True changed the converter's (name, label) table"
+            want_hit = [[s.lower(), 1]] if s.lower() in G["tables"][gk] or obs["registered"] else []
+            for which, hit in zip(("convert_label", "convert_name"), c["hits"]):
+                if hit != want_hit:
+                    return f"{which}({s!r}) with count_label_number=True changed the counters by {hit}, expected {want_hit} (one count on the matched row)"
+            if c["no_count_nums"]:
+                return "a converter with count_label_number=False counted conversions"
         if obs["registered"] and obs["label"] not in obs["registered"]:
             return f"{s!r} is registered for {obs['registered']} but converts to {obs['label']}"
         if len(set(obs["registered"])) > 1:
@@ -139,14 +238,128 @@ class LabelCorr(Corr):
         return bool(obs.get("registered")) or case["name"].lower() != case["name"]
 
     def distribution(self, cases, obs):
-        d = {"registered": 0, "unregistered": 0, "with_upper_case": 0}
+        d = {"registered": 0, "unregistered": 0, "with_upper_case": 0, "names_with_a_pinned_documented_label": 0,
+             "names_in_the_docs_tables": 0, "conversions_through_a_long_lived_counting_converter": 0, "counted_hits": 0}
         labs = {}
+        G = golden()
         for c, o in zip(cases, obs):
+            gk = golden_key(c["family"], c["merge"], c["task"])
+            d["names_with_a_pinned_documented_label"] += c["name"].lower() in G["tables"][gk]
+            d["names_in_the_docs_tables"] += c["name"].lower() in G["docs"].get(gk, {})
+            if "counting" in o:
+                d["conversions_through_a_long_lived_counting_converter"] += 3
+                d["counted_hits"] += sum(len(h) for h in o["counting"]["hits"])
             d["registered" if o.get("registered") else "unregistered"] += 1
             if c["name"].lower() != c["name"]:
                 d["with_upper_case"] += 1
             labs[o.get("label")] = labs.get(o.get("label"), 0) + 1
         d["labels"] = labs
+        return d
+
+
+TMP_ROOT = os.path.join(core.BUILD, "C14_tmp")
+
+
+def config_dict(task, family, merge, targets):
+    cfg = {"evaluation_task": task, "target_labels": targets, "label_prefix": family, "merge_similar_labels": merge}
+    if task in ("detection", "tracking"):
+        cfg.update({"max_x_position": 100.0, "max_y_position": 100.0, "center_distance_thresholds": [1.0], "plane_distance_thresholds": [2.0],
+                    "iou_2d_thresholds": [0.5], "iou_3d_thresholds": [0.5], "min_point_numbers": 0})
+    elif task in ("detection2d", "tracking2d"):
+        cfg.update({"center_distance_thresholds": [100.0], "iou_2d_thresholds": [0.5]})
+    return cfg
+
+
+class TargetCorr(Corr):
+    """the third entry point of the property: PerceptionEvaluationConfig(...).target_labels (the configuration builds its own
+    LabelConverter from label_prefix / merge_similar_labels / the task MEMBER, with count_label_number defaulting to True)"""
+    name = "config_target_labels"
+    header = LabelCorr.header
+    requires = LabelCorr.requires
+    shard = 100
+
+    def cases(self, tier, rng):
+        out = []
+        G = golden()
+        per = 3 if tier == "quick" else 25
+        cells = [("autoware", m, t) for m in (False, True) for t in ("detection", "tracking", "detection2d", "classification2d")]
+        cells += [("traffic_light", m, t) for m in (False, True) for t in ("classification2d", "detection2d", "tracking2d")]
+        for family, merge, task in cells:
+            tbl = G["tables"][golden_key(family, merge, task)]
+            pool = sorted(tbl) + [v for _, v in G["enums"][family]]
+            for k in range(per):
+                names = [rng.choice(pool) for _ in range(rng.randint(1, 5))]
+                if k % 3 == 1:
+                    names.append(rng.choice(["zzz", "trailer ", "Cyclist", "vehicle"]))        # unregistered -> UNKNOWN, position kept
+                if k % 3 == 2:
+                    names.append(names[0])                                                     # a repeated name stays repeated
+                names = ["".join(c.upper() if rng.random() < 0.4 else c for c in n) for n in names]
+                out.append({"family": family, "merge": merge, "task": task, "names": names})
+            out.append({"family": family, "merge": merge, "task": task, "names": None})         # all labels
+        return out
+
+    def run_impl(self, case):
+        from perception_eval.common.label import AutowareLabel, TrafficLightLabel
+        from perception_eval.config import PerceptionEvaluationConfig
+
+        frame = "base_link" if case["task"] in ("detection", "tracking") else "cam_front"
+        cfg = config_dict(case["task"], case["family"], case["merge"], None if case["names"] is None else list(case["names"]))
+        try:
+            c = PerceptionEvaluationConfig(["/nonexistent"], frame, os.path.join(TMP_ROOT, f"r{os.getpid()}"), cfg, load_raw_data=False)
+        except Exception as e:  # noqa: BLE001
+            return {"error": f"{type(e).__name__}: {e}"}
+        fam = AutowareLabel if case["family"] == "autoware" else TrafficLightLabel
+        names = case["names"] or []
+        objs = [c.label_converter.convert_label(n) for n in names]
+        return {"targets": [l.name for l in c.target_labels], "family_ok": bool(all(isinstance(l, fam) for l in c.target_labels)),
+                "object_labels": [o.label.name for o in objs],
+                "same_members": bool(all(o.label is t for o, t in zip(objs, c.target_labels))) if names else True,
+                "filter_targets": [l.name for l in c.filtering_params["target_labels"]],
+                "metrics_targets": [l.name for l in c.metrics_params["target_labels"]],
+                "names_given_unchanged": cfg["target_labels"] == case["names"]}
+
+    def _tbl(self, case):
+        fam = "Autoware" if case["family"] == "autoware" else "TrafficLight"
+        return f'(table_of {fam} {"true" if case["merge"] else "false"} {slit(case["task"].upper())})'
+
+    def coq_term(self, case, obs):
+        if "error" in obs:
+            return "false"
+        if case["names"] is None:
+            return "true"
+        if len(obs["targets"]) != len(case["names"]):
+            return "false"
+        t = self._tbl(case)
+        return "(" + " && ".join(f"String.eqb (convert_name {t} {slit(n)}) {slit(l)}" for n, l in zip(case["names"], obs["targets"])) + ")"
+
+    def oracle(self, case, obs):
+        if "error" in obs:
+            return f"a configuration with target labels {case['names']} was rejected: {obs['error']}"
+        G = golden()
+        enum_keys = [k for k, _ in G["enums"][case["family"]]]
+        if not obs["family_ok"]:
+            return f"the configuration's target labels are not members of the {case['family']} label enum"
+        if obs["filter_targets"] != obs["targets"] or obs["metrics_targets"] != obs["targets"]:
+            return f"the filter / metric parameters hold other target labels ({obs['filter_targets']} / {obs['metrics_targets']}) than the configuration ({obs['targets']})"
+        if case["names"] is None:
+            return None if obs["targets"] == enum_keys else f"without target names the configuration holds {obs['targets']} instead of every member {enum_keys}"
+        tbl = G["tables"][golden_key(case["family"], case["merge"], case["task"])]
+        want = [tbl.get(n.lower(), "UNKNOWN") for n in case["names"]]
+        if obs["targets"] != want:
+            return (f"PerceptionEvaluationConfig(label_prefix={case['family']!r}, merge_similar_labels={case['merge']}, task={case['task']!r})"
+                    f".target_labels for {case['names']} is {obs['targets']} but the documented labels are {want} (in the order given)")
+        if obs["object_labels"] != obs["targets"] or not obs["same_members"]:
+            return f"objects converted by the configuration's converter get {obs['object_labels']} but its target list holds {obs['targets']}"
+        if not obs["names_given_unchanged"]:
+            return "the caller's target-name list was modified"
+        return None
+
+    def nontrivial(self, case, obs):
+        return bool(case["names"]) and len(set(obs.get("targets", []))) >= 2
+
+    def distribution(self, cases, obs):
+        d = {"cells": len({(c["family"], c["merge"], c["task"]) for c in cases}), "all_labels_requests": sum(c["names"] is None for c in cases),
+             "names": sum(len(c["names"] or []) for c in cases), "resolved_to_unknown": sum(o.get("targets", []).count("UNKNOWN") for o in obs)}
         return d
 
 
@@ -160,16 +373,33 @@ class C14(Prop):
                   "case, maps every registered name to its table label, fixes every producible label's canonical name, sends unregistered names to "
                   "UNKNOWN, resolves target lists like object labels, and merged = merge_map(unmerged). Tables and the lookup-loop shapes are "
                   "regenerated from the source each run; convert_label/convert_name/set_target_lists are compared with the model on every "
-                  "registered name x 6 case variants x near misses x random strings for every family/merge/task.")
+                  "registered name x 6 case variants x near misses x random strings for every family/merge/task. The oracle's 'documented "
+                  "label' is a pinned copy of the tables (source + docs), not the converter's own table; counting converters, enum-typed tasks, "
+                  "the all-labels target list and the PerceptionEvaluationConfig.target_labels entry point are driven as well.")
     level_note = ("Trusted: Coq kernel+vm_compute; translator/py_to_coq.py; ASCII-only lower() (Python's non-ASCII case folding, e.g. U+212A, is "
-                  "outside the model); labels identified by enum key. 'documented label' = the table in label.py.")
+                  "outside the model); labels identified by enum key. 'documented label' = the table in label.py as pinned in "
+                  "corpus/C14/golden/label_tables.json (unchanged source at the recorded commit) and the rows of docs/en/perception/label.md "
+                  "that the source does not contradict (4 stale traffic-light rows are listed in the file and not used).")
     rule = ("per (family, merge, task): every registered name, enum value and enum key in 6 case variants + near misses + random ASCII strings; "
-            "non-trivial = registered name or contains upper-case letters")
+            "non-trivial = registered name or contains upper-case letters; plus every name of the PINNED documented tables of the family "
+            "(corpus/C14/golden/label_tables.json: a copy of the tables of common/label.py and of docs/en/perception/label.md at a recorded "
+            "commit) whatever the converter under test registers, and the oracle demands label == pinned label for each of them; every name "
+            "is also converted through ONE long-lived converter per (family, merge, task) built with count_label_number=True (same labels "
+            "as a fresh non-counting converter, (name, label) table untouched, exactly one count on the matched row per convert_label / "
+            "convert_name), through a converter built with the task as an EvaluationTask member, and set_target_lists(None / []) must give "
+            "every member of the pinned enum; second correspondence: PerceptionEvaluationConfig(...).target_labels for both families x merge "
+            "on/off x 3-4 tasks with mixed-case / unregistered / repeated target names and with no names, compared elementwise (order kept) "
+            "with the pinned tables, with the labels objects get from the configuration's own converter and with the filter / metric parameter copies")
     assumptions = ["ASCII-only model of str.lower()", "translator validated by this run's correspondence"]
     not_proved = ["non-ASCII case folding", "Label objects' attribute handling (only .label and .name observed)"]
 
     def correspondences(self):
-        return [LabelCorr()]
+        return [LabelCorr(), TargetCorr()]
+
+    def cleanup(self):
+        import shutil
+
+        shutil.rmtree(TMP_ROOT, ignore_errors=True)
 
 
 READY = True
